@@ -51,6 +51,20 @@ INPUTS = [
         'dv4 OBJECT-TYPE SYNTAX OCTET STRING (SIZE (0..8)) MAX-ACCESS read-write STATUS current DESCRIPTION "d" DEFVAL { \'0A0B\'H } ::= { enterprises 84 }\n'
         'dv5 OBJECT-TYPE SYNTAX OBJECT IDENTIFIER MAX-ACCESS read-write STATUS current DESCRIPTION "d" DEFVAL { enterprises } ::= { enterprises 85 }',
         'IMPORTS OBJECT-TYPE, enterprises FROM SNMPv2-SMI;\n')),
+    # two versions of ONE module: the same names denote other types in the later version (a revised MIB compiled by a
+    # long-lived compiler); anything remembered per (symbol, module) from the first version must not leak into the second
+    ('ver1', 'VER-MIB', M('VER-MIB',
+        'Threshold ::= TEXTUAL-CONVENTION STATUS current DESCRIPTION "d" SYNTAX OCTET STRING (SIZE (0..4))\n'
+        'Mode ::= TEXTUAL-CONVENTION STATUS current DESCRIPTION "d" SYNTAX INTEGER { on(1), off(2) }\n'
+        'vThr OBJECT-TYPE SYNTAX Threshold MAX-ACCESS read-write STATUS current DESCRIPTION "d" DEFVAL { \'0aff\'h } ::= { enterprises 91 }\n'
+        'vMode OBJECT-TYPE SYNTAX Mode MAX-ACCESS read-write STATUS current DESCRIPTION "d" DEFVAL { off } ::= { enterprises 92 }',
+        'IMPORTS OBJECT-TYPE, enterprises, Integer32 FROM SNMPv2-SMI TEXTUAL-CONVENTION FROM SNMPv2-TC;\n')),
+    ('ver2', 'VER-MIB', M('VER-MIB',
+        'Threshold ::= TEXTUAL-CONVENTION STATUS current DESCRIPTION "d" SYNTAX Integer32 (0..70000)\n'
+        'Mode ::= TEXTUAL-CONVENTION STATUS current DESCRIPTION "d" SYNTAX INTEGER { on(1), off(2), auto(3) }\n'
+        'vThr OBJECT-TYPE SYNTAX Threshold MAX-ACCESS read-write STATUS current DESCRIPTION "d" DEFVAL { \'0aff\'h } ::= { enterprises 91 }\n'
+        'vMode OBJECT-TYPE SYNTAX Mode MAX-ACCESS read-write STATUS current DESCRIPTION "d" DEFVAL { auto } ::= { enterprises 92 }',
+        'IMPORTS OBJECT-TYPE, enterprises, Integer32 FROM SNMPv2-SMI TEXTUAL-CONVENTION FROM SNMPv2-TC;\n')),
 ]
 INPUT_BY = {k: (n, t) for k, n, t in INPUTS}
 KINDS = ['parser', 'parserV2', 'symtable', 'json', 'pysnmp', 'compiler', 'sameast']
@@ -211,6 +225,10 @@ print(json.dumps(out))
 '''
 
 
+def _run_history_job(job):
+    return run_history(job[0], job[1])
+
+
 def seed_runs(seeds):
     verif = os.path.dirname(os.path.dirname(os.path.abspath(__file__)))
     procs = []
@@ -251,8 +269,10 @@ def run(out, prop, tier, seed, **kw):
         extra = [(k, tuple(rnd.choice(keys) for _ in range(3))) for k in KINDS for _ in range(45)]
         hists += [h for h in extra if not (h[0] == 'sameast' and len(set(h[1])) == 3)]
     traces = []
+    from harness import par
+    all_evs = par.pmap(_run_history_job, hists, chunk=24)
     for i, (kind, h) in enumerate(hists):
-        evs = run_history(kind, h)
+        evs = all_evs[i]
         traces.append({'id': 'h%d' % i, 'kind': kind, 'events': evs, 'seedruns': [{'seed': 0, 'digest': 'x'}]})
         out.evaluations += 1
         if len(h) > 1:
